@@ -19,7 +19,11 @@ UNKNOWN_KEYS = ['x', 'my-option', 'X_1', 'zzz', 'Another-Key', 'q9', 'a_b-c',
                 'spec-version', 'min-version', 'x-version', 'xversion', 'version2', 'x-encoding', 'encoding-x', 'pre-length',
                 'length2', 'no-indent', 'indent-by', 'my-line_endings', 'line_endings2', 'x-format', 'format-x', 'a-type',
                 'type-b', 'x-mimetype']
-UNKNOWN_VALS = ['value', '1', '-5', '007', 'a/b', '/x', '1.0', 'text/x-diff', '_', '-', '.', 'A.b_c-d/e', '12abc', '1_0']
+UNKNOWN_VALS = ['value', '1', '-5', '007', 'a/b', '/x', '1.0', 'text/x-diff', '_', '-', '.', 'A.b_c-d/e', '12abc', '1_0',
+                # words and number spellings that other notations (JSON, Python, YAML) give a meaning to: here just strings,
+                # except -?[0-9]+ which is an integer
+                'true', 'false', 'null', 'True', 'None', 'NaN', 'Infinity', '-Infinity', '-007', '-0', '1e5', '0x10', '0o7',
+                '1.', '.5', 'yes', 'no', 'on', 'off', '00', '-', '--1', '1-1']
 # digit strings around CPython's int/str conversion limit (rare: the model's decimal printing is quadratic)
 UNKNOWN_LONG_VALS = ['7' * 4300, '7' * 4301, '-' + '3' * 4400]
 
